@@ -122,7 +122,12 @@ def cplx(draw, lo, hi, zero=False):
 @st.composite
 def scale(draw):
     """non-zero complex scale of a homogeneous vector"""
-    k = draw(st.integers(0, 3))
+    k = draw(st.integers(0, 8))
+    if k == 8:
+        # very small / very large representatives (a matrix in other units, the 24th power
+        # of a map): still the same point of CP^1 / the same Moebius map
+        return draw(st.sampled_from([[1e-9, 0.0], [0.0, 2e-10], [-3e8, 0.0], [0.0, -1e9]]))
+    k = k % 4
     if k == 0:
         return [1.0, 0.0]
     if k == 1:
